@@ -6,13 +6,13 @@
 // (mem::replace), A-im (Index / IndexMut of im::HashMap).  The rest are open spec functions and proved lemmas; the
 // vocabulary copied from other slices / shims says where it comes from; env/train_formation_update_shim.vs is
 // included (module `tfu`), not copied.
-// NOT HERE (yet): the vocabulary of the preconditions / postconditions spawn_vehicle_for_path got from the verified contracts
-// of find_best_start_depot_for_spawning / find_best_end_depot_for_despawning (Network::start_depots_ok, Schedule::{sp_can_spawn,
-// usage_counts_small, some_depot_has_room, best_start_depot, depot_limits_hold}, Network::nearest_end_depot, dist_le, …; text
-// copied from env/depot_choice_shim.vs).  It sits in slices/spawn_vehicle.vs: its first part (Depot::sp_capacity_for,
-// Network::{has_depot, sp_depot, sp_depot_idx_of}, spawned_of_type, spawned_counts, spawned_total) is defined with the same text
-// in env/add_path_shim.vs, which slices/add_path.vs includes next to this file (duplicate definitions).  Slices that stub
-// spawn_vehicle_for_path with its full contract need that block moved here and the copy in env/add_path_shim.vs dropped.
+// LAST BLOCK of this file: the vocabulary of the preconditions / postconditions spawn_vehicle_for_path got from the verified
+// contracts of find_best_start_depot_for_spawning / find_best_end_depot_for_despawning (Depot::sp_capacity_for, Network::{has_depot,
+// sp_depot, sp_depot_idx_of, dist_to, dist_from, start_depots_ok, nearest_end_depot}, spawned_of_type / spawned_counts /
+// spawned_total, dist_le, listed_before, Schedule::{sp_can_spawn, usage_counts_small, some_depot_has_room, best_start_depot,
+// depot_limits_hold}, lemma_depot_without_type_limit_suffices, lemma_spawn_keeps_depot_limits; text copied from
+// env/depot_choice_shim.vs).  The slices that stub spawn_vehicle_for_path with its full contract (dummy_ops, sched_ctor) and
+// slices/add_path.vs (env/add_path_shim.vs, included after this file, no longer defines the first part itself) use it from here.
 use vstd::std_specs::cmp::OrdSpec;
 
 // A-display: `{}` of a VehicleTypeIdx (derive_more Display of the repository; a no-op outside verus!)
@@ -701,5 +701,396 @@ pub proof fn lemma_listings_match(lists0: Map<VehicleTypeIdx, Vec<VehicleIdx>>, 
             assert(lists0.contains_key(t));
             assert(lists0[t]@.contains(v) <==> vehicles0.contains_key(v) && vtype(vehicles0[v]) == t);
         }
+    }
+}
+
+// =====================================================================================================
+// the choice of a depot: vocabulary of the contracts of Schedule::find_best_start_depot_for_spawning /
+// find_best_end_depot_for_despawning and of the clauses spawn_vehicle_for_path got from them (C02 / C06 / C13).  TEXT COPIED
+// from env/depot_choice_shim.vs (slice depot_choice verifies the two functions against it), which cannot be included next
+// to this file: it declares UsageMap, sp_spawned, sp_despawned, usage_same_except, Display of VehicleTypeIdx again and
+// expects env/admission_shim.vs' im_set.  It sits HERE because every slice that stubs spawn_vehicle_for_path with its full
+// contract (dummy_ops, sched_ctor) includes this file; env/add_path_shim.vs (included AFTER this file by slices/add_path.vs)
+// used to hold a copy of the first part (Depot::sp_capacity_for .. spawned_total) and now uses these definitions.
+// No assumption: open spec functions and proved lemmas.
+// =====================================================================================================
+// ---- depot admission vocabulary (C02); in env/depot_choice_shim.vs copied from slices/admission.vs ----------------
+impl Depot {
+    /// C02: the number of vehicles of a type that may start at a depot: 0 if the type is not listed,
+    /// the depot's total capacity if it is listed without a limit, the smaller of both otherwise
+    pub open spec fn sp_capacity_for(&self, vt: VehicleTypeIdx) -> VehicleCount {
+        if !self.allowed_types@.contains_key(vt) { 0 }
+        else {
+            match self.allowed_types@[vt] {
+                Some(c) => if c <= self.total_capacity { c } else { self.total_capacity },
+                None => self.total_capacity,
+            }
+        }
+    }
+}
+impl Network {
+    pub open spec fn has_depot(&self, d: DepotIdx) -> bool { self.depots@.contains_key(d) }
+    pub open spec fn sp_depot(&self, d: DepotIdx) -> Depot { self.depots@[d].0 }
+    /// the depot a start / end depot node belongs to (the free function sp_depot_idx_of(net, n) of
+    /// env/spawn_vehicle_shim.vs has the same body)
+    pub open spec fn sp_depot_idx_of(&self, n: NodeIdx) -> DepotIdx {
+        match self.sp_node(n) {
+            Node::StartDepot((_, d)) => d.depot_idx,
+            Node::EndDepot((_, d)) => d.depot_idx,
+            _ => arbitrary(),
+        }
+    }
+}
+/// C02: "the number of vehicles [of a type] starting there"
+pub open spec fn spawned_of_type(du: UsageMap, d: DepotIdx, vt: VehicleTypeIdx) -> nat {
+    if du.contains_key((d, vt)) { du[(d, vt)].0@.len() } else { 0 }
+}
+pub open spec fn spawned_counts(du: UsageMap, d: DepotIdx, types: Seq<VehicleTypeIdx>) -> Seq<int> {
+    types.map_values(|vt: VehicleTypeIdx| spawned_of_type(du, d, vt) as int)
+}
+/// C02: "the number of vehicles starting there": the total over the given vehicle types
+pub open spec fn spawned_total(du: UsageMap, d: DepotIdx, types: Seq<VehicleTypeIdx>) -> int {
+    isum(spawned_counts(du, d, types))
+}
+// ---- the choice of a depot (env/depot_choice_shim.vs) -------------------------------------------------------------
+/// "at most as far as"
+pub open spec fn dist_le(a: Distance, b: Distance) -> bool { denc(a) <= denc(b) }
+impl Network {
+    /// the sort key of Network::start_depots_sorted_by_distance_to: the dead-head distance FROM the node d (its start
+    /// location; for a depot node: the depot's location) TO the given location
+    pub open spec fn dist_to(&self, d: NodeIdx, location: Location) -> Distance {
+        self.locations.sp_distance(self.sp_node(d).sp_start_location(), location)
+    }
+    /// the sort key of Network::end_depots_sorted_by_distance_from: the dead-head distance FROM the given location TO
+    /// the node d (the code reads its START location; for a depot node start and end location are the depot's location)
+    pub open spec fn dist_from(&self, location: Location, d: NodeIdx) -> Distance {
+        self.locations.sp_distance(location, self.sp_node(d).sp_start_location())
+    }
+    /// instance validity (A-index: how Network::new fills the list): the start depot node list holds StartDepot nodes
+    /// of the network whose depot is a depot of the network's depot table
+    pub open spec fn start_depots_ok(&self) -> bool {
+        forall|i: int| 0 <= i < self.start_depot_nodes@.len() ==> self.has(#[trigger] self.start_depot_nodes@[i])
+            && self.sp_node(self.start_depot_nodes@[i]) is StartDepot
+            && self.has_depot(self.sp_depot_idx_of(self.start_depot_nodes@[i]))
+    }
+}
+/// x occurs in `list` before some occurrence of y
+pub open spec fn listed_before(list: Seq<NodeIdx>, x: NodeIdx, y: NodeIdx) -> bool {
+    exists|a: int, b: int| #![trigger list[a], list[b]] 0 <= a < b < list.len() && list[a] == x && list[b] == y
+}
+impl Network {
+    /// the nearest end depot node (ties: the one listed first)
+    pub open spec fn nearest_end_depot(&self, r: NodeIdx, location: Location) -> bool {
+        &&& self.end_depot_nodes@.contains(r)
+        &&& forall|d: NodeIdx| #[trigger] self.end_depot_nodes@.contains(d) ==> dist_le(self.dist_from(location, r), self.dist_from(location, d))
+        &&& forall|d: NodeIdx| #[trigger] self.end_depot_nodes@.contains(d) && d != r && self.dist_from(location, d) == self.dist_from(location, r)
+                ==> listed_before(self.end_depot_nodes@, r, d)
+    }
+}
+impl Schedule {
+    /// C02 "no more vehicles start at a depot than its total and per-type capacity": the depot of the start depot node n
+    /// lists the type and has room for one more vehicle of it, per type and in total, w.r.t. the usage table du.  This is
+    /// (verbatim) the value Schedule::can_depot_spawn_vehicle_custom_usage is verified to return (slices/admission.vs)
+    pub open spec fn sp_can_spawn(&self, n: NodeIdx, vehicle_type: VehicleTypeIdx, du: UsageMap) -> bool {
+        let d = self.network.sp_depot_idx_of(n);
+        &&& self.network.sp_depot(d).sp_capacity_for(vehicle_type) > 0
+        &&& spawned_of_type(du, d, vehicle_type) < self.network.sp_depot(d).sp_capacity_for(vehicle_type)
+        &&& spawned_total(du, d, self.network.vehicle_types.ids_sorted@) < self.network.sp_depot(d).total_capacity
+    }
+    /// magnitude (`as VehicleCount` of a set size / the u32 sum over the types): the counts of the table fit u32 for the
+    /// depots of the network's start depot nodes (vehicle ids are 16 bit: a set has at most 2^17 members)
+    pub open spec fn usage_counts_small(&self, vehicle_type: VehicleTypeIdx, du: UsageMap) -> bool {
+        forall|i: int| 0 <= i < self.network.start_depot_nodes@.len() ==> {
+            let d = self.network.sp_depot_idx_of(#[trigger] self.network.start_depot_nodes@[i]);
+            &&& spawned_of_type(du, d, vehicle_type) <= u32::MAX
+            &&& spawned_total(du, d, self.network.vehicle_types.ids_sorted@) <= u32::MAX
+        }
+    }
+    /// C06: some start depot node of the network can spawn a vehicle of the type w.r.t. the table
+    pub open spec fn some_depot_has_room(&self, vehicle_type: VehicleTypeIdx, du: UsageMap) -> bool {
+        exists|i: int| 0 <= i < self.network.start_depot_nodes@.len() && self.sp_can_spawn(#[trigger] self.network.start_depot_nodes@[i], vehicle_type, du)
+    }
+    /// the nearest start depot node with room for one more vehicle of the type w.r.t. the table (ties: the one listed first)
+    pub open spec fn best_start_depot(&self, r: NodeIdx, vehicle_type: VehicleTypeIdx, location: Location, du: UsageMap) -> bool {
+        let sdn = self.network.start_depot_nodes@;
+        &&& sdn.contains(r)
+        &&& self.sp_can_spawn(r, vehicle_type, du)
+        &&& forall|d: NodeIdx| sdn.contains(d) && #[trigger] self.sp_can_spawn(d, vehicle_type, du)
+                ==> dist_le(self.network.dist_to(r, location), self.network.dist_to(d, location))
+        &&& forall|d: NodeIdx| sdn.contains(d) && #[trigger] self.sp_can_spawn(d, vehicle_type, du) && d != r
+                && self.network.dist_to(d, location) == self.network.dist_to(r, location) ==> listed_before(sdn, r, d)
+    }
+}
+// ---- sums: a count is at most the total (in env/depot_choice_shim.vs copied from slices/admission.vs) ---------------
+pub proof fn lemma_isum_bounds_lo(s: Seq<int>)
+    requires forall|i: int| 0 <= i < s.len() ==> 0 <= #[trigger] s[i],
+    ensures 0 <= isum(s),
+    decreases s.len(),
+{
+    if s.len() > 0 {
+        let t = s.drop_last();
+        assert forall|i: int| 0 <= i < t.len() implies 0 <= #[trigger] t[i] by { assert(t[i] == s[i]); }
+        lemma_isum_bounds_lo(t);
+    }
+}
+pub proof fn lemma_isum_nonneg_le(s: Seq<int>, k: int)
+    requires forall|i: int| 0 <= i < s.len() ==> 0 <= #[trigger] s[i], 0 <= k < s.len(),
+    ensures 0 <= s[k] <= isum(s),
+    decreases s.len(),
+{
+    let t = s.drop_last();
+    assert forall|i: int| 0 <= i < t.len() implies 0 <= #[trigger] t[i] by { assert(t[i] == s[i]); }
+    lemma_isum_bounds_lo(t);
+    if k < t.len() {
+        lemma_isum_nonneg_le(t, k);
+        assert(t[k] == s[k]);
+    }
+}
+// ---- C06: how a caller meets some_depot_has_room -- "at least the overflow depot" (text of slices/depot_choice.vs) ------
+/// A start depot node n of the network whose depot lists the type WITHOUT a per-type limit (the overflow depot lists every type
+/// of the network so: slices/network_new.vs, C17.overflow_depot.no_per_type_limit_for_any_type) can spawn a vehicle of the type
+/// as long as fewer vehicles start there in total than its total capacity -- then `expect` cannot panic.
+pub proof fn lemma_depot_without_type_limit_suffices(s: &Schedule, n: NodeIdx, vehicle_type: VehicleTypeIdx, du: UsageMap)
+    requires
+        s.network.start_depot_nodes@.contains(n),
+        // the type is one of the network's types (the total is the sum over them)
+        s.network.vehicle_types.ids_sorted@.contains(vehicle_type),
+        ({
+            let d = s.network.sp_depot_idx_of(n);
+            let dep = s.network.sp_depot(d);
+            &&& dep.allowed_types@.contains_key(vehicle_type) && dep.allowed_types@[vehicle_type] is None
+            &&& spawned_total(du, d, s.network.vehicle_types.ids_sorted@) < dep.total_capacity
+        }),
+    ensures
+        s.sp_can_spawn(n, vehicle_type, du),
+        s.some_depot_has_room(vehicle_type, du), // @obl C06.spawn_vehicle.a_depot_without_type_limit_and_room_in_total_suffices
+{
+    let d = s.network.sp_depot_idx_of(n);
+    let types = s.network.vehicle_types.ids_sorted@;
+    let c = spawned_counts(du, d, types);
+    let k = choose|k: int| 0 <= k < types.len() && types[k] == vehicle_type;
+    lemma_isum_nonneg_le(c, k);
+    assert(c[k] == spawned_of_type(du, d, vehicle_type));
+    let sdn = s.network.start_depot_nodes@;
+    let i = choose|i: int| 0 <= i < sdn.len() && sdn[i] == n;
+    assert(s.sp_can_spawn(sdn[i], vehicle_type, du));
+}
+// ---- C02: the depot limits still hold after the vehicle was booked at the chosen depot (text of slices/depot_choice.vs; the
+// parameter `can` with the copied postcondition of can_depot_spawn_vehicle_custom_usage is replaced by what sp_can_spawn
+// says itself, and the conclusion is named depot_limits_hold) ---------------------------------------------------------
+impl Schedule {
+    /// C02 "for every real depot the number of vehicles starting there stays within the depot's total capacity and within the
+    /// per-type capacity (types not listed for a depot never start there)", for the depot of the start depot node n and one
+    /// type, w.r.t. the usage table du
+    pub open spec fn depot_limits_hold(&self, n: NodeIdx, vehicle_type: VehicleTypeIdx, du: UsageMap) -> bool {
+        let d = self.network.sp_depot_idx_of(n);
+        let dep = self.network.sp_depot(d);
+        // "within the per-type capacity (types not listed for a depot never start there)"
+        &&& spawned_of_type(du, d, vehicle_type) <= dep.sp_capacity_for(vehicle_type)
+        &&& dep.allowed_types@.contains_key(vehicle_type)
+        &&& (dep.allowed_types@[vehicle_type] is Some ==> spawned_of_type(du, d, vehicle_type) <= dep.allowed_types@[vehicle_type].unwrap())
+        // "within the depot's total capacity"
+        &&& spawned_total(du, d, self.network.vehicle_types.ids_sorted@) <= dep.total_capacity
+    }
+}
+/// if b exceeds a by at most 1 at no more than one position and nowhere else, the sum grows by at most 1
+pub proof fn lemma_isum_one_more(a: Seq<int>, b: Seq<int>, k: int)
+    requires
+        a.len() == b.len(),
+        forall|i: int| 0 <= i < a.len() && i != k ==> #[trigger] b[i] <= a[i],
+        0 <= k < a.len() ==> b[k] <= a[k] + 1,
+    ensures
+        isum(b) <= isum(a) + (if 0 <= k < a.len() { 1int } else { 0int }),
+    decreases a.len(),
+{
+    if a.len() > 0 {
+        let n = a.len() - 1;
+        let a0 = a.drop_last();
+        let b0 = b.drop_last();
+        assert forall|i: int| 0 <= i < a0.len() && i != k implies #[trigger] b0[i] <= a0[i] by { assert(b[i] <= a[i]); }
+        lemma_isum_one_more(a0, b0, k);
+        if k != n { assert(b[n] <= a[n]); }
+    }
+}
+/// `n` = the start depot node find_best_start_depot_for_spawning(vt, _, du0) returned (it had room w.r.t. du0).  du1 = the table
+/// after update_depot_usage booked the new vehicle v: its postcondition usage_same_except, and v starts at (depot of n, vt)
+/// only.  Then, w.r.t. du1, the depot's per-type and total limits hold.
+pub proof fn lemma_spawn_keeps_depot_limits(s: &Schedule, n: NodeIdx, vehicle_type: VehicleTypeIdx, du0: UsageMap, du1: UsageMap, v: VehicleIdx)
+    requires
+        // find_best_start_depot_for_spawning
+        s.sp_can_spawn(n, vehicle_type, du0),
+        // update_depot_usage: nobody else moves; v starts at the chosen depot with its type and nowhere else
+        usage_same_except(du0, du1, v),
+        forall|d: DepotIdx, vt: VehicleTypeIdx| (#[trigger] sp_spawned(du1, d, vt)).contains(v) <==> (d == s.network.sp_depot_idx_of(n) && vt == vehicle_type),
+        // A-types: the network lists every vehicle type once
+        s.network.vehicle_types.ids_sorted@.no_duplicates(),
+    ensures
+        s.depot_limits_hold(n, vehicle_type, du1), // @obl C02.spawn_vehicle.depot_limits_hold_after_the_spawn
+{
+    let d = s.network.sp_depot_idx_of(n);
+    let types = s.network.vehicle_types.ids_sorted@;
+    let a = spawned_counts(du0, d, types);
+    let b = spawned_counts(du1, d, types);
+    // per type: the set of the chosen (depot, type) gains v, the sets of the depot's other types gain nothing
+    assert forall|vt: VehicleTypeIdx| spawned_of_type(du1, d, vt) <= #[trigger] spawned_of_type(du0, d, vt) + (if vt == vehicle_type { 1int } else { 0int }) by {
+        let s0 = sp_spawned(du0, d, vt);
+        let s1 = sp_spawned(du1, d, vt);
+        assert(spawned_of_type(du0, d, vt) == s0.len() && spawned_of_type(du1, d, vt) == s1.len());
+        if vt == vehicle_type {
+            assert forall|u: VehicleIdx| s1.contains(u) implies #[trigger] s0.insert(v).contains(u) by {
+                if u != v { assert(sp_spawned(du1, d, vt).contains(u) <==> sp_spawned(du0, d, vt).contains(u)); }
+            }
+            assert(s1.subset_of(s0.insert(v)));
+            vstd::set_lib::lemma_len_subset(s1, s0.insert(v));
+        } else {
+            assert forall|u: VehicleIdx| s1.contains(u) implies #[trigger] s0.contains(u) by {
+                assert(sp_spawned(du1, d, vt).contains(v) <==> (d == s.network.sp_depot_idx_of(n) && vt == vehicle_type));
+                assert(u != v);
+                assert(sp_spawned(du1, d, vt).contains(u) <==> sp_spawned(du0, d, vt).contains(u));
+            }
+            assert(s1.subset_of(s0));
+            vstd::set_lib::lemma_len_subset(s1, s0);
+        }
+    }
+    // in total: the type is listed at most once
+    let k = if types.contains(vehicle_type) { choose|k: int| 0 <= k < types.len() && types[k] == vehicle_type } else { -1int };
+    assert forall|i: int| 0 <= i < a.len() && i != k implies #[trigger] b[i] <= a[i] by {
+        assert(types[i] != vehicle_type) by {
+            if types[i] == vehicle_type { assert(types.contains(vehicle_type)); assert(types[k] == vehicle_type && i != k); }
+        }
+        assert(spawned_of_type(du1, d, types[i]) <= spawned_of_type(du0, d, types[i]) + 0);
+    }
+    if 0 <= k < a.len() {
+        assert(spawned_of_type(du1, d, types[k]) <= spawned_of_type(du0, d, types[k]) + 1);
+    }
+    lemma_isum_one_more(a, b, k);
+    assert(spawned_of_type(du1, d, vehicle_type) <= spawned_of_type(du0, d, vehicle_type) + 1);
+}
+
+// ---- C09 => magnitude / C06: an exact usage table counts real vehicles only.  How a caller of spawn_vehicle_for_path meets
+// usage_counts_small (lemma_usage_counts_small: from sv_ids_ok + usage_exact + pairwise distinct vehicle types) and bounds the
+// number of vehicles that start at a depot by the number of vehicles of the schedule (lemma_usage_counts_le_vehicles; with
+// lemma_depot_without_type_limit_suffices the route to some_depot_has_room: slices/sched_ctor.vs) ------------------------------
+/// the vehicles the table books as starting at depot d with one of the types ts
+pub open spec fn spawned_union(du: UsageMap, d: DepotIdx, ts: Seq<VehicleTypeIdx>) -> Set<VehicleIdx>
+    decreases ts.len(),
+{
+    if ts.len() == 0 { Set::empty() } else { spawned_union(du, d, ts.drop_last()).union(sp_spawned(du, d, ts.last())) }
+}
+/// if the table is exact (C09), the vehicles booked at a depot under pairwise distinct types are real vehicles, each booked under
+/// its own type only: the total over the types is the size of their union, a subset of the schedule's vehicles
+pub proof fn lemma_spawned_union(du: UsageMap, net: &Network, vehicles: VehicleMap, tours: TourMap, d: DepotIdx, ts: Seq<VehicleTypeIdx>)
+    requires usage_exact(du, net, vehicles, tours), ts.no_duplicates(),
+    ensures
+        spawned_union(du, d, ts).subset_of(vehicles.dom()),
+        spawned_union(du, d, ts).len() == spawned_total(du, d, ts),
+        forall|v: VehicleIdx| #[trigger] spawned_union(du, d, ts).contains(v) ==> exists|j: int| 0 <= j < ts.len() && vehicles[v].vehicle_type.idx == #[trigger] ts[j],
+    decreases ts.len(),
+{
+    if ts.len() > 0 {
+        let t = ts.drop_last();
+        let x = ts.last();
+        assert(t.no_duplicates()) by {
+            assert forall|i: int, j: int| 0 <= i < t.len() && 0 <= j < t.len() && i != j implies t[i] != t[j] by { assert(t[i] == ts[i] && t[j] == ts[j]); }
+        }
+        lemma_spawned_union(du, net, vehicles, tours, d, t);
+        let a = spawned_union(du, d, t);
+        let b = sp_spawned(du, d, x);
+        assert forall|v: VehicleIdx| #[trigger] b.contains(v) implies vehicles.contains_key(v) && vehicles[v].vehicle_type.idx == x by {
+            assert(usage_exact_for(du, net, vehicles, tours, v));
+            assert(sp_spawned(du, d, x).contains(v) <==> starts_at(net, vehicles, tours, v, d, x));
+        }
+        assert(a.disjoint(b)) by {
+            assert forall|v: VehicleIdx| #![auto] !(a.contains(v) && b.contains(v)) by {
+                if a.contains(v) && b.contains(v) {
+                    let j = choose|j: int| 0 <= j < t.len() && vehicles[v].vehicle_type.idx == #[trigger] t[j];
+                    assert(ts[j] == t[j] && ts[ts.len() - 1] == x);
+                }
+            }
+        }
+        vstd::set_lib::lemma_set_disjoint_lens(a, b);
+        assert(spawned_counts(du, d, ts).drop_last() =~= spawned_counts(du, d, t));
+        assert(spawned_counts(du, d, ts).last() == spawned_of_type(du, d, x) as int);
+        assert(spawned_of_type(du, d, x) == b.len());
+        assert forall|v: VehicleIdx| #[trigger] spawned_union(du, d, ts).contains(v)
+            implies exists|j: int| 0 <= j < ts.len() && vehicles[v].vehicle_type.idx == #[trigger] ts[j] by {
+            if a.contains(v) {
+                let j = choose|j: int| 0 <= j < t.len() && vehicles[v].vehicle_type.idx == #[trigger] t[j];
+                assert(0 <= j < ts.len() && vehicles[v].vehicle_type.idx == ts[j]);
+            } else {
+                assert(b.contains(v));
+                assert(0 <= ts.len() - 1 < ts.len() && vehicles[v].vehicle_type.idx == ts[ts.len() - 1]);
+            }
+        }
+    } else {
+        assert(spawned_counts(du, d, ts) =~= Seq::<int>::empty());
+    }
+}
+/// C09 => counts: w.r.t. an exact table no more vehicles start at a depot -- of one type, and in total over the network's
+/// (pairwise distinct) types -- than the schedule has vehicles
+pub proof fn lemma_usage_counts_le_vehicles(s: &Schedule, d: DepotIdx, vehicle_type: VehicleTypeIdx)
+    requires
+        usage_exact(s.depot_usage@, &s.network, s.vehicles@, s.tours@),
+        // A-types: the network lists every vehicle type once
+        s.network.vehicle_types.ids_sorted@.no_duplicates(),
+    ensures
+        spawned_of_type(s.depot_usage@, d, vehicle_type) <= s.vehicles@.dom().len(),
+        spawned_total(s.depot_usage@, d, s.network.vehicle_types.ids_sorted@) <= s.vehicles@.dom().len(),
+{
+    let du = s.depot_usage@;
+    let types = s.network.vehicle_types.ids_sorted@;
+    lemma_spawned_union(du, &s.network, s.vehicles@, s.tours@, d, types);
+    vstd::set_lib::lemma_len_subset(spawned_union(du, d, types), s.vehicles@.dom());
+    let b = sp_spawned(du, d, vehicle_type);
+    assert forall|v: VehicleIdx| #[trigger] b.contains(v) implies s.vehicles@.dom().contains(v) by {
+        assert(usage_exact_for(du, &s.network, s.vehicles@, s.tours@, v));
+        assert(sp_spawned(du, d, vehicle_type).contains(v) <==> starts_at(&s.network, s.vehicles@, s.tours@, v, d, vehicle_type));
+    }
+    vstd::set_lib::lemma_len_subset(b, s.vehicles@.dom());
+    assert(spawned_of_type(du, d, vehicle_type) == b.len());
+}
+/// the ids Vehicle(0) .. Vehicle(k - 1)
+pub open spec fn vehicle_ids_below(k: int) -> Set<VehicleIdx>
+    decreases k,
+{
+    if k <= 0 { Set::empty() } else { vehicle_ids_below(k - 1).insert(VehicleIdx::Vehicle((k - 1) as Idx)) }
+}
+pub proof fn lemma_vehicle_ids_below(k: int)
+    requires 0 <= k <= 0x10000,
+    ensures
+        vehicle_ids_below(k).len() == k,
+        forall|v: VehicleIdx| #[trigger] vehicle_ids_below(k).contains(v) <==> v is Vehicle && (v->Vehicle_0 as int) < k,
+    decreases k,
+{
+    if k > 0 { lemma_vehicle_ids_below(k - 1); }
+}
+/// magnitude: vehicle ids are 16 bit -- a schedule whose real vehicles are stored under `Vehicle` ids has at most 2^16 of them
+pub proof fn lemma_at_most_2_16_vehicles(s: &Schedule)
+    requires s.sv_ids_ok(),
+    ensures s.vehicles@.dom().len() <= 0x10000,
+{
+    lemma_vehicle_ids_below(0x10000);
+    assert forall|v: VehicleIdx| #[trigger] s.vehicles@.dom().contains(v) implies vehicle_ids_below(0x10000).contains(v) by {
+        assert(s.vehicles@.contains_key(v));
+    }
+    vstd::set_lib::lemma_len_subset(s.vehicles@.dom(), vehicle_ids_below(0x10000));
+}
+/// magnitude: usage_counts_small (precondition of spawn_vehicle_for_path) follows from schedule validity (C10 ids, C09 usage
+/// table; both clauses of sv_ok) and A-types (clause of transitions_ok): the counts of the schedule's own table are at most 2^16
+pub proof fn lemma_usage_counts_small(s: &Schedule, vehicle_type: VehicleTypeIdx)
+    requires
+        s.sv_ids_ok(),
+        usage_exact(s.depot_usage@, &s.network, s.vehicles@, s.tours@),
+        s.network.vehicle_types.ids_sorted@.no_duplicates(),
+    ensures
+        s.usage_counts_small(vehicle_type, s.depot_usage@),
+{
+    let du = s.depot_usage@;
+    let sdn = s.network.start_depot_nodes@;
+    lemma_at_most_2_16_vehicles(s);
+    assert forall|i: int| 0 <= i < sdn.len() implies
+        spawned_of_type(du, s.network.sp_depot_idx_of(#[trigger] sdn[i]), vehicle_type) <= u32::MAX
+        && spawned_total(du, s.network.sp_depot_idx_of(sdn[i]), s.network.vehicle_types.ids_sorted@) <= u32::MAX by {
+        lemma_usage_counts_le_vehicles(s, s.network.sp_depot_idx_of(sdn[i]), vehicle_type);
     }
 }
